@@ -352,7 +352,9 @@ func (self *BinaryConv) doRecurse(ctx context.Context, s string, jp int, desc *t
 				if nt == json.EndObj {
 					// notice: when option TracebackRequredOrRootFields enabled, we should always WriteXXField
 					traceback := self.opts.TracebackRequredOrRootFields && depth == 0
-					if err := bm.HandleRequires(desc.Struct(), self.opts.WriteRequireField || traceback, self.opts.WriteDefaultField || traceback, self.opts.WriteOptionalField || traceback, func(f *thrift.FieldDescriptor) error {
+					// required fields are sought in the http values at every depth (the handler below does it), so HandleRequires must
+					// not report them missing first; writeStringValue still does when nothing is found
+					if err := bm.HandleRequires(desc.Struct(), self.opts.WriteRequireField || self.opts.TracebackRequredOrRootFields, self.opts.WriteDefaultField || traceback, self.opts.WriteOptionalField || traceback, func(f *thrift.FieldDescriptor) error {
 						// special case: traceback http values for root of required fields
 						var val string
 						var enc meta.Encoding
